@@ -6,7 +6,8 @@ import (
 )
 
 // TestGenModuli regenerates testdata/moduli.json (only when C11_GEN=1):
-//   C11_GEN=1 go test ./checks/c11 -run TestGenModuli -count=1
+//
+//	C11_GEN=1 go test ./checks/c11 -run TestGenModuli -count=1
 func TestGenModuli(t *testing.T) {
 	if os.Getenv("C11_GEN") != "1" {
 		t.Skip("set C11_GEN=1 to regenerate testdata/moduli.json")
